@@ -26,7 +26,7 @@ RULE = ('signatures of 1..2 (quick) / 1..3 (thorough) positional-or-keyword / ke
         'additionalProperties on/off (a function served alone, sharing one validator with a sibling served first, as a view method, or decorated again with an all-admitting schema after its registration) x argument values from a per-type alphabet of conforming / non-conforming values x positional / named '
         'passing (every case also judged by the jsonschema package itself on independently bound arguments); pydantic side: annotations '
         '{int, str, float, bool, Optional[int], List[int], Dict[str,int], a model class, an enum, an int with a validator function that raises ValueError} x conforming / coercible / non-conforming '
-        'values x coercion on/off, per-argument verdicts from pydantic.TypeAdapter independently of pjrpc. Everything is dispatched '
+        'values x coercion on/off, per-argument verdicts from pydantic.TypeAdapter independently of pjrpc. 12% of the methods raise a TypeError of their own after recording their arguments (accepted calls are then answered -32000, never -32602). Everything is dispatched '
         'end-to-end. distinct = distinct case; non-trivial = the method body ran')
 EXHAUSTIVE = {'quick': False, 'thorough': False}
 TRUSTED_BASE = ['jsonschema 3.2 on the fragment (cross-checked against js_valid on every case)',
@@ -159,6 +159,8 @@ def generate(seed, tier):
             # after registration the same function is decorated AGAIN, with a schema that admits everything, and exposed a second
             # time elsewhere; the first registration keeps the validator arguments it was made with
             c['redeco'] = True
+        if rnd.random() < 0.12:
+            c['raises'] = True
         cases.append(c)
     n_typed = 1800 if tier == 'quick' else 16000
     for _ in range(n_typed):
@@ -177,6 +179,8 @@ def generate(seed, tier):
             c['shared'] = True        # ONE PydanticValidator shared with a sibling function of the same __name__, served first
         if c['ctx'] and rnd.random() < 0.5:
             c['ctxv'] = rnd.randrange(1, 7)
+        if rnd.random() < 0.12:
+            c['raises'] = True
         cases.append(c)
     return cases
 
@@ -241,8 +245,21 @@ def make_function(case, is_async, log, annotations=None):
     body = '[' + ', '.join('[%r, render(%s)]' % (n, n) for n, _, _ in sig) + ']'
     if case.get('view'):
         parts = ['self'] + parts
+    if case.get('raises'):
+        # the body itself raises a TypeError (worded like a binding error) after recording what it was called with
+        exec('%sdef f(%s):\n    LOG.append(%s)\n    raise TypeError("helper() missing 1 required positional argument: \'x\'")\n'
+             % ('async ' if is_async else '', ', '.join(parts), body), ns)
+        return ns['f']
     exec('%sdef f(%s):\n    LOG.append(1)\n    return %s\n' % ('async ' if is_async else '', ', '.join(parts), body), ns)
     return ns['f']
+
+
+def ran_although_failed(case, obs, log):
+    """A body that raises cannot return its arguments: if the answer is the server error -32000, what it ran with is taken from its own
+    record (an answer of -32602 stays what it is: the call was reported as refused)."""
+    if case.get('raises') and obs == ('other', -32000) and len(log) == 1:
+        return ('ran', json.loads(json.dumps(log[0])))
+    return obs
 
 
 G_SCHEMA = {'type': 'object', 'properties': {'gx': {'type': 'string'}}, 'required': ['gx'], 'additionalProperties': False}
@@ -322,6 +339,7 @@ def observe(case):
                     v.validate(fn, schema={'type': 'object'})
                     (AsyncDispatcher if case['async'] else Dispatcher)().add(fn, name='loose')
             obs = dispatch(case, f, case['async'], after_registration=post)
+        obs = ran_although_failed(case, obs, log)
         bound = independent_bind(case)
         if bound is None:
             js = None
@@ -339,7 +357,7 @@ def observe(case):
         ns = {}
         exec('%sdef f(gx: str):\n    return "g"\n' % ('async ' if case['async'] else ''), ns)       # same __name__, other signature
         sibling = v.validate(ns['f'])
-    obs = dispatch(case, f, case['async'], sibling=sibling)
+    obs = ran_although_failed(case, dispatch(case, f, case['async'], sibling=sibling), log)
     verdicts = {}
     p = case['params']
     names = [q[0] for q in case['sig'] if q[0] not in (case.get('xs') or ())]
